@@ -75,7 +75,15 @@ fn render(rows: &[Row], rng: &mut Rng) -> String {
             (r.left, r.left)
         };
         let pos = *rng.pick(&POS);
-        s.push_str(&format!("{},{},{},{},{},{},*,*,*,A,*,*,*,*\n", csv_field(&r.surface), l, rt, rng.range(-500, 9000), csv_field(&r.surface), pos));
+        // the headword (column 4, what WordInfo::surface reports) is a column of its own: often the key, often not
+        let head = match rng.below(8) {
+            0 => r.surface.to_uppercase(),
+            1 => format!("{}の見出し", r.surface),
+            2 => "別".to_string(),
+            3 => r.surface.chars().rev().collect::<String>(),
+            _ => r.surface.clone(),
+        };
+        s.push_str(&format!("{},{},{},{},{},{},*,*,*,A,*,*,*,*\n", csv_field(&r.surface), l, rt, rng.range(-500, 9000), csv_field(&head), pos));
     }
     s
 }
@@ -83,7 +91,12 @@ fn render(rows: &[Row], rng: &mut Rng) -> String {
 /// small alphabets with 1-, 2-, 3- and 4-byte characters so that keys share prefixes at byte level too
 // ('#' and '\'' are ordinary key characters for the dictionary but meaningful to some CSV dialects)
 // (' ', ',' and '"' too: a surface may contain them -- the CSV field is then quoted -- and they must neither be trimmed nor split)
-const ALPHA: [&str; 19] = ["a", "#", "b", " ", "é", "ä", "あ", ",", "い", "ア", "'", "京", "\"", "亰", "東", "𠮟", "𠮷", "\u{10FFFF}", "\u{7f}"];
+// The second half holds spellings that Unicode normalisation (NFC / NFD / NFKC / case folding) would change, next to the
+// spelling they would turn into: keys and texts are byte strings for the index, so each spelling is its own key.
+const ALPHA: [&str; 38] = [
+    "a", "#", "b", " ", "é", "ä", "あ", ",", "い", "ア", "'", "京", "\"", "亰", "東", "𠮟", "𠮷", "\u{10FFFF}", "\u{7f}",
+    "か\u{3099}", "が", "e\u{301}", "é", "\u{212B}", "\u{C5}", "\u{212A}", "K", "\u{2126}", "\u{3A9}", "\u{FA10}", "\u{585A}", "\u{FA19}", "\u{795E}", "ｶ", "カ", "Ａ", "A", "ﬁ",
+];
 
 /// a CSV field as the csv crate's default dialect wants it: quoted when it holds a comma, a quote, a line break or outer blanks
 fn csv_field(s: &str) -> String {
@@ -153,7 +166,7 @@ fn gen_surface(rng: &mut Rng, existing: &[Row]) -> String {
     let n = 1 + rng.below(4);
     let mut s = String::new();
     // sub-alphabet per key keeps collisions frequent
-    let lo = rng.below(15) as usize;
+    let lo = rng.below(ALPHA.len() as u64 - 3) as usize;
     for _ in 0..n {
         s.push_str(ALPHA[lo + rng.below(4) as usize]);
     }
@@ -867,6 +880,31 @@ pub fn run(args: &Args) {
         let texts: Vec<String> = ["a\u{0}b", "\u{0}ab", "ab\u{0}c", "a\u{0}\u{0}bc"].iter().map(|s| s.to_string()).collect();
         run_case(&mut sink, &[csv], &texts, &["a\u{0}b".to_string(), "ab".to_string(), "\u{0}".to_string()], true, false);
         sink.tag("directed_nul_in_text");
+    }
+    // directed: keys that differ only by a Unicode normalisation form / compatibility mapping are different keys, found
+    // exactly where their own spelling stands
+    {
+        let keys = ["\u{FA10}", "\u{585A}", "か\u{3099}", "が", "\u{212B}", "\u{C5}", "e\u{301}x", "éx", "ｶ", "カ", "Ａ", "A", "\u{2126}", "\u{212A}"];
+        let mut csv = String::new();
+        for (i, k) in keys.iter().enumerate() {
+            csv.push_str(&format!("{},{},{},{},{},{},*,*,*,A,*,*,*,*\n", k, i % 9, i % 9, 1000 + i, k, POS[i % 3]));
+        }
+        let texts: Vec<String> = vec!["\u{FA10}\u{585A}か\u{3099}が".into(), "\u{212B}\u{C5}e\u{301}xéx".into(), "ｶカＡA\u{2126}\u{212A}K".into()];
+        let exacts: Vec<String> = keys.iter().map(|k| k.to_string()).chain(["\u{3A9}".to_string(), "K".to_string()]).collect();
+        run_case(&mut sink, &[csv], &texts, &exacts, true, false);
+        sink.tag("directed_normalisation_sensitive_keys");
+    }
+    // directed: the headword (column 4) is independent of the key (column 0): case, width, length, other text
+    {
+        let rows = [("nhk", "NHK"), ("アイアイウ", "アイウ"), ("ab", "ab"), ("ab", "別物"), ("a", "ab"), ("京", "京都府")];
+        let mut csv = String::new();
+        for (i, (k, h)) in rows.iter().enumerate() {
+            csv.push_str(&format!("{},{},{},{},{},{},*,*,*,A,*,*,*,*\n", k, i % 9, i % 9, 1000 + i, h, POS[i % 3]));
+        }
+        let texts: Vec<String> = vec!["nhkab".into(), "アイアイウ京".into(), "NHKアイウ".into()];
+        let exacts: Vec<String> = ["nhk", "NHK", "アイアイウ", "アイウ", "ab", "a", "京", "京都府", "別物"].iter().map(|s| s.to_string()).collect();
+        run_case(&mut sink, &[csv], &texts, &exacts, true, false);
+        sink.tag("directed_headword_differs_from_key");
     }
     // directed: 127 homographs (the maximum a table group can hold), and 128 (must be rejected, not truncated)
     for n in [127usize, 128] {
